@@ -217,19 +217,24 @@ Proof.
   - clear -F. induction F as [|y ch [_ Hy] F IH]; simpl; [reflexivity|]. rewrite Hy, IH. reflexivity.
 Qed.
 
-(* template objects carry exactly the caller's values *)
-Definition tpl_is (tv : bool) (ap : option (list str)) (c : option str * bool * option (list str)) : Prop :=
-  snd (fst c) = tv /\ snd c = ap.
+(* template objects carry exactly the caller's values; one that has a vars file exists only under a grant *)
+Definition tpl_is (E : env) (tv : bool) (ap : option (list str)) (c : option str * bool * option (list str)) : Prop :=
+  snd (fst c) = tv /\ snd c = ap /\ (fst (fst c) <> None -> (tv || env_on (e_tv E)) = true).
 
-Lemma tpl_ctor_shape E tv ap ps n t : tpl_ctor E tv ap ps = (Ok n, t) -> exists v, n = NTpl v tv ap.
+Lemma tpl_init_ok_grant E tv ap p u t : tpl_init E tv ap (Some p) = (Ok u, t) -> (tv || env_on (e_tv E)) = true.
+Proof. unfold tpl_init. destruct (tv || env_on (e_tv E)); [reflexivity | discriminate]. Qed.
+
+Lemma tpl_ctor_shape E tv ap ps n t :
+  tpl_ctor E tv ap ps = (Ok n, t) -> exists v, n = NTpl v tv ap /\ (v <> None -> (tv || env_on (e_tv E)) = true).
 Proof.
   unfold tpl_ctor. destruct (negb (check_params tpl_accepted [k_template] ps)); [discriminate|].
   destruct (lookup k_template ps) as [[| | |s| |]|]; try discriminate.
   destruct (negb (is_none k_path ps)); [discriminate|].
   destruct (lookup k_vars ps) as [[| | |p| |]|]; try discriminate.
-  - intros E0. inversion E0. eauto.
-  - intros E0. apply rbind_ok in E0. destruct E0 as (u & t1 & t2 & _ & E0 & _). inversion E0. eauto.
-  - intros E0. inversion E0. eauto.
+  - intros E0. inversion E0. exists None. split; [reflexivity | congruence].
+  - intros E0. apply rbind_ok in E0. destruct E0 as (u & t1 & t2 & E1 & E0 & _). inversion E0.
+    exists (Some p). split; [reflexivity|]. intros _. eapply tpl_init_ok_grant; eauto.
+  - intros E0. inversion E0. exists None. split; [reflexivity | congruence].
 Qed.
 
 Lemma rlift_catch_plain_ok acc req ps n t : rlift (catch_o (plain_ctor acc req ps)) = (Ok n, t) -> n = NPlain.
@@ -238,7 +243,7 @@ Proof.
 Qed.
 
 Lemma inst_post_shape E tv ap d n t :
-  inst_post E tv ap d = (Ok n, t) -> (exists v, n = NTpl v tv ap) \/ n = NPlain \/ n = NNest [].
+  inst_post E tv ap d = (Ok n, t) -> (exists v, n = NTpl v tv ap /\ (v <> None -> (tv || env_on (e_tv E)) = true)) \/ n = NPlain \/ n = NNest [].
 Proof.
   destruct d as [| | | |l|m]; simpl; try discriminate.
   destruct (lookup k_type m) as [[| | |ty| |]|]; try discriminate.
@@ -252,15 +257,15 @@ Proof.
 Qed.
 
 Lemma inst_post_caps E tv ap d n t :
-  inst_post E tv ap d = (Ok n, t) -> all_flags (obs n) = [] /\ Forall (tpl_is tv ap) (tpl_caps (obs n)).
+  inst_post E tv ap d = (Ok n, t) -> all_flags (obs n) = [] /\ Forall (tpl_is E tv ap) (tpl_caps (obs n)).
 Proof.
-  intros E0. apply inst_post_shape in E0. destruct E0 as [[v ->]|[->| ->]]; simpl; split; auto.
-  constructor; [split; reflexivity | constructor].
+  intros E0. apply inst_post_shape in E0. destruct E0 as [(v & -> & Hv)|[->| ->]]; simpl; split; auto.
+  constructor; [repeat split; auto | constructor].
 Qed.
 
 Lemma inst_fin_caps :
   forall k E tv ap top d n t, (ysize d < k)%nat -> inst_fin E tv ap top d = (Ok n, t) ->
-    all_flags (obs n) = [] /\ Forall (tpl_is tv ap) (tpl_caps (obs n)).
+    all_flags (obs n) = [] /\ Forall (tpl_is E tv ap) (tpl_caps (obs n)).
 Proof.
   induction k as [|k IH]; intros E tv ap top d n t Hs E0; [lia|].
   destruct d as [| | | |l|m]; simpl in E0; try discriminate.
@@ -271,8 +276,8 @@ Proof.
   cbv zeta in E0.
   destruct tyv as [|b|z|ty|l'|m'']; try discriminate; try (exfalso; exact (U E0)).
   destruct (str_eqb ty t_template).
-  { apply catch_r_ok in E0. apply tpl_ctor_shape in E0. destruct E0 as [v ->]. simpl. split; auto.
-    constructor; [split; reflexivity | constructor]. }
+  { apply catch_r_ok in E0. apply tpl_ctor_shape in E0. destruct E0 as (v & -> & Hv). simpl. split; auto.
+    constructor; [repeat split; auto | constructor]. }
   destruct (str_eqb ty t_nested).
   { match type of E0 with find_key ?kk ?a ?b ?c m = _ =>
       destruct (find_key_cases kk a b c m) as [H0|(k' & v & Hin & Hk & H0)]; rewrite H0 in E0 end; [discriminate|].
@@ -286,7 +291,7 @@ Proof.
       |apply (NIL (YInt z0)) in E0; subst n; simpl; auto | apply (NIL (YStr s0)) in E0; subst n; simpl; auto
       | | apply (NIL (YMap m')) in E0; subst n; simpl; auto].
     apply rbind_ok in E0. destruct E0 as (ch & t1 & t2 & Ech & E0 & _). inversion E0; subst n. simpl.
-    assert (F : Forall (fun y => all_flags (obs y) = [] /\ Forall (tpl_is tv ap) (tpl_caps (obs y))) ch).
+    assert (F : Forall (fun y => all_flags (obs y) = [] /\ Forall (tpl_is E tv ap) (tpl_caps (obs y))) ch).
     { eapply rmap_Forall; [|exact Ech]. intros x Hx y ty0 Ey. eapply IH; [|exact Ey].
       pose proof (ysize_list x l Hx). pose proof (ysize_map k' (YList l) m Hin). lia. }
     rewrite !flat_map_concat_map, !map_map, <- !flat_map_concat_map. split.
@@ -338,16 +343,16 @@ Theorem caps_from_caller E d a t tr :
   Forall (fun f => f = a_ext a) (flat_map top_flags (o_items ot)) /\
   Forall (fun f => f = false) (flat_map nested_flags (tree_nodes ot)) /\
   flat_map all_flags (o_post ot ++ o_fin ot) = [] /\
-  Forall (tpl_is (a_tv a) (a_ap a)) (tree_tpl_caps ot).
+  Forall (tpl_is E (a_tv a) (a_ap a)) (tree_tpl_caps ot).
 Proof.
   intros E0. apply load_dict_ok in E0.
   destruct E0 as (m & its & pds & fds & -> & _ & Ei & _ & _ & t1 & t2 & Ep & Ef & _).
   assert (Fi : Forall (fun nd => Forall (fun f => f = a_ext a) (top_flags (obs nd)) /\
                                  Forall (fun f => f = false) (nested_flags (obs nd)) /\ tpl_caps (obs nd) = []) (t_items t)).
   { eapply omap_Forall; [|exact Ei]. intros x _ y Ey. apply inst_item_flags in Ey. exact Ey. }
-  assert (Fp : Forall (fun nd => all_flags (obs nd) = [] /\ Forall (tpl_is (a_tv a) (a_ap a)) (tpl_caps (obs nd))) (t_post t)).
+  assert (Fp : Forall (fun nd => all_flags (obs nd) = [] /\ Forall (tpl_is E (a_tv a) (a_ap a)) (tpl_caps (obs nd))) (t_post t)).
   { eapply rmap_Forall; [|exact Ep]. intros x _ y ty Ey. apply inst_post_caps in Ey. exact Ey. }
-  assert (Ff : Forall (fun nd => all_flags (obs nd) = [] /\ Forall (tpl_is (a_tv a) (a_ap a)) (tpl_caps (obs nd))) (t_fin t)).
+  assert (Ff : Forall (fun nd => all_flags (obs nd) = [] /\ Forall (tpl_is E (a_tv a) (a_ap a)) (tpl_caps (obs nd))) (t_fin t)).
   { eapply rmap_Forall; [|exact Ef]. intros x _ y ty Ey. eapply (inst_fin_caps (S (ysize x))); [apply Nat.lt_succ_diag_r | exact Ey]. }
   assert (NF : forall o, all_flags o = [] -> nested_flags o = []).
   { intros o. destruct o; simpl; auto; discriminate. }
@@ -454,3 +459,194 @@ Proof.
   inversion Ep; subst p'. destruct Hin as [Hq|[]]. inversion Hq; subst q.
   split; [reflexivity|]. split; [exact G|]. apply path_containment; assumption.
 Qed.
+
+(* ---------------------------------------------------------------------------------------- *)
+(* effects during loading: only executions of vars files, each behind the gate *)
+Definition exec_ok (E : env) (tv : bool) (ap : option (list str)) (e : effect) : Prop :=
+  exists p, e = EExec (real E p) /\ (tv || env_on (e_tv E)) = true /\
+            match ap with Some bases => path_allowed E bases (realpath E p) = true | None => True end.
+
+Lemma tpl_init_trace_ok E tv ap vars : Forall (exec_ok E tv ap) (snd (tpl_init E tv ap vars)).
+Proof.
+  destruct (tpl_init E tv ap vars) as [o tr] eqn:E0. apply tpl_init_trace in E0. simpl.
+  destruct E0 as [->|(p & _ & -> & G & PA)]; [constructor|]. constructor; [|constructor]. exists p. auto.
+Qed.
+
+Lemma tpl_ctor_trace E tv ap ps : Forall (exec_ok E tv ap) (snd (tpl_ctor E tv ap ps)).
+Proof.
+  unfold tpl_ctor. destruct (negb (check_params tpl_accepted [k_template] ps)); [constructor|].
+  destruct (lookup k_template ps) as [[| | |s| |]|]; try constructor.
+  destruct (negb (is_none k_path ps)); [constructor|].
+  destruct (lookup k_vars ps) as [[| | |p| |]|]; try constructor.
+  apply rbind_trace_Forall; [apply tpl_init_trace_ok | intros; constructor].
+Qed.
+
+Lemma inst_post_trace E tv ap d : Forall (exec_ok E tv ap) (snd (inst_post E tv ap d)).
+Proof.
+  destruct d as [| | | |l|m]; simpl; try constructor.
+  destruct (lookup k_type m) as [[| | |ty| |]|]; try constructor.
+  destruct (str_eqb ty t_template); [apply tpl_ctor_trace|].
+  destruct (str_eqb ty t_embed); [constructor|].
+  destruct (str_eqb ty t_simple_template); [constructor|].
+  destruct (str_eqb ty t_nest); constructor.
+Qed.
+
+Lemma inst_fin_trace :
+  forall k E tv ap top d, (ysize d < k)%nat -> Forall (exec_ok E tv ap) (snd (inst_fin E tv ap top d)).
+Proof.
+  induction k as [|k IH]; intros E tv ap top d Hs; [lia|].
+  destruct d as [| | | |l|m]; simpl; try constructor.
+  set (m1 := remove_keys (if top then [k_tv; k_ap; k_ext] else [k_tv; k_ap]) m).
+  destruct (lookup k_type m1) as [tyv|]; [|constructor].
+  assert (U : Forall (exec_ok E tv ap) (snd (if top then @rerr node E_Config else rcrash C_Key))).
+  { destruct top; constructor. }
+  destruct tyv as [|b|z|ty|l'|m'']; try constructor; try exact U.
+  destruct (str_eqb ty t_template); [apply tpl_ctor_trace|].
+  destruct (str_eqb ty t_nested).
+  { match goal with |- context [find_key ?kk ?a ?b ?c m] =>
+      destruct (find_key_cases kk a b c m) as [H0|(k' & v & Hin & Hk & H0)]; rewrite H0 end; [constructor|].
+    assert (NIL : forall v0, Forall (exec_ok E tv ap) (snd (rbind (rlift (iter_yv v0)) (fun l0 =>
+                   rbind (rmap (fun _ : yv => @rcrash node C_Attr) l0) (fun ch => rret (NNest ch)))))).
+    { intros v0. apply rbind_trace_Forall; [constructor|]. intros l0.
+      apply rbind_trace_Forall; [|intros; constructor]. apply rmap_trace. intros; constructor. }
+    destruct v as [|b0|z0|s0|l|m'];
+      [apply (NIL YNull) | apply (NIL (YBool b0)) | apply (NIL (YInt z0)) | apply (NIL (YStr s0)) | | apply (NIL (YMap m'))].
+    apply rbind_trace_Forall; [|intros; constructor]. apply rmap_trace. intros x Hx. apply IH.
+    pose proof (ysize_list x l Hx). pose proof (ysize_map k' (YList l) m Hin). lia. }
+  destruct (str_eqb ty t_concat); [constructor|].
+  destruct (str_eqb ty t_json); [constructor|].
+  destruct (str_eqb ty t_yaml); [constructor|]. exact U.
+Qed.
+
+Theorem load_trace_gated E d a :
+  Forall (exec_ok E (a_tv a) (a_ap a)) (snd (load_dict E d a)).
+Proof.
+  destruct d as [| | | |l|m]; unfold load_dict; try constructor.
+  destruct (negb (forallb (fun kv => mem_str (fst kv) top_keys) m)); [constructor|].
+  apply rbind_trace_Forall; [constructor|]. intros its.
+  apply rbind_trace_Forall; [constructor|]. intros items.
+  apply rbind_trace_Forall; [constructor|]. intros pds.
+  apply rbind_trace_Forall; [apply rmap_trace; intros; apply inst_post_trace|]. intros post.
+  apply rbind_trace_Forall; [constructor|]. intros fds.
+  apply rbind_trace_Forall; [|intros; constructor].
+  apply rmap_trace. intros x _. apply (inst_fin_trace (S (ysize x))). apply Nat.lt_succ_diag_r.
+Qed.
+
+(* ---------------------------------------------------------------------------------------- *)
+(* effects during conversion: only fetches of external sources, each behind the gate *)
+Section NodeInd.
+  Variable P : node -> Prop.
+  Hypothesis HExt : forall s sel f, P (NExt s sel f).
+  Hypothesis HTpl : forall v tv ap, P (NTpl v tv ap).
+  Hypothesis HWild : forall sel, P (NWild sel).
+  Hypothesis HPlain : P NPlain.
+  Hypothesis HGuard : forall b n, P n -> P (NGuard b n).
+  Hypothesis HNest : forall l, Forall P l -> P (NNest l).
+  Fixpoint node_ind' (n : node) : P n :=
+    match n with
+    | NExt s sel f => HExt s sel f
+    | NTpl v tv ap => HTpl v tv ap
+    | NWild sel => HWild sel
+    | NPlain => HPlain
+    | NGuard b n' => HGuard b n' (node_ind' n')
+    | NNest l => HNest l ((fix go (l : list node) : Forall P l :=
+                             match l with [] => Forall_nil P | x :: r => Forall_cons x (node_ind' x) (go r) end) l)
+    end.
+End NodeInd.
+
+Lemma run_nest E l : forall rem, run_node E (NNest l) rem = run_nodes E l rem.
+Proof.
+  induction l as [|x l IH]; intros rem; [reflexivity|].
+  simpl. destruct (run_node E x rem) as [[rem'|c|c] t1]; simpl; try reflexivity.
+  simpl in IH. rewrite IH. reflexivity.
+Qed.
+
+Definition fetch_ok_eff (E : env) (flags : list bool) (e : effect) : Prop :=
+  (exists s, e = effect_of s) /\ (env_on (e_ext E) = true \/ In true flags).
+
+Lemma fetch_ok_eff_mono E f1 f2 e : (forall x, In x f1 -> In x f2) -> fetch_ok_eff E f1 e -> fetch_ok_eff E f2 e.
+Proof. intros H [H1 [H2|H2]]; split; auto. Qed.
+
+Lemma run_nodes_trace E l :
+  Forall (fun n => forall rem, Forall (fetch_ok_eff E (all_flags (obs n))) (snd (run_node E n rem))) l ->
+  forall rem, Forall (fetch_ok_eff E (flat_map (fun n => all_flags (obs n)) l)) (snd (run_nodes E l rem)).
+Proof.
+  induction 1 as [|x l Hx _ IH]; intros rem; simpl; [constructor|].
+  apply rbind_trace_Forall.
+  - eapply Forall_impl; [|apply Hx]. intros e. apply fetch_ok_eff_mono. intros y Hy. apply in_or_app. auto.
+  - intros rem'. eapply Forall_impl; [|apply IH]. intros e. apply fetch_ok_eff_mono. intros y Hy. apply in_or_app. auto.
+Qed.
+
+Lemma run_node_trace E n : forall rem, Forall (fetch_ok_eff E (all_flags (obs n))) (snd (run_node E n rem)).
+Proof.
+  induction n as [s sel f|v tv ap|sel| |b n IH|l IH] using node_ind'; intros rem; simpl; try constructor.
+  - destruct (existsb (handled sel) rem); [|constructor].
+    unfold ext_allowed. destruct (f || env_on (e_ext E)) eqn:G; simpl; [|constructor].
+    assert (Q : fetch_ok_eff E [f] (effect_of s)).
+    { split; [eauto|]. apply orb_true_iff in G. destruct G as [->| ->]; [right; left; reflexivity | left; reflexivity]. }
+    destruct (fetch_ok E s); constructor; auto.
+  - destruct b; [apply IH | constructor].
+  - change (Forall (fetch_ok_eff E (flat_map all_flags (map obs l))) (snd (run_node E (NNest l) rem))).
+    rewrite run_nest. rewrite flat_map_concat_map, map_map, <- flat_map_concat_map.
+    apply run_nodes_trace. exact IH.
+Qed.
+
+Lemma all_flags_split o : all_flags o = top_flags o ++ nested_flags o.
+Proof. destruct o; simpl; rewrite ?app_nil_r; reflexivity. Qed.
+
+Theorem convert_trace_gated E d a t tr phs :
+  load_dict E d a = (Ok t, tr) ->
+  Forall (fun e => (exists s, e = effect_of s) /\ (a_ext a || env_on (e_ext E)) = true) (snd (convert E t phs)).
+Proof.
+  intros E0. pose proof (caps_from_caller E d a t tr E0) as (C1 & C2 & _ & _). cbv zeta in C1, C2.
+  unfold convert. apply rbind_trace_Forall; [|intros [|? ?]; constructor].
+  eapply Forall_impl; [|apply run_nodes_trace; apply Forall_forall; intros n _; apply run_node_trace].
+  intros e [Hs [He|Hf]]; split; auto; [rewrite He; apply orb_true_r|].
+  apply orb_true_iff. left.
+  apply in_flat_map in Hf. destruct Hf as (n & Hn & Hf). rewrite all_flags_split in Hf. apply in_app_or in Hf.
+  unfold obs_tree, tree_nodes in C1, C2. cbn [o_items o_post o_fin] in C1, C2.
+  destruct Hf as [Hf|Hf].
+  - rewrite Forall_forall in C1. symmetry. apply C1. apply in_flat_map. exists (obs n). split; [apply in_map; exact Hn | exact Hf].
+  - rewrite Forall_forall in C2. exfalso. assert (true = false); [|discriminate]. apply C2.
+    rewrite flat_map_app. apply in_or_app. left. apply in_flat_map. exists (obs n). split; [apply in_map; exact Hn | exact Hf].
+Qed.
+
+(* ---------------------------------------------------------------------------------------- *)
+(* C16_no_effect_default *)
+Lemma Forall_False_nil {A} (P : A -> Prop) l : Forall P l -> (forall x, P x -> False) -> l = [].
+Proof. destruct 1 as [|x l Hx _]; [reflexivity|]. intros H. destruct (H x Hx). Qed.
+
+Theorem no_effect_default E d :
+  env_on (e_ext E) = false -> env_on (e_tv E) = false ->
+  snd (load_dict E d default_args) = [] /\
+  forall t, fst (load_dict E d default_args) = Ok t ->
+    Forall (fun c => fst (fst c) = None) (tree_tpl_caps (obs_tree t)) /\
+    Forall (fun f => f = false) (tree_ext_flags (obs_tree t)) /\
+    forall phs, snd (convert E t phs) = [].
+Proof.
+  intros Hx Ht. split.
+  - eapply Forall_False_nil; [apply load_trace_gated|]. intros e (p & _ & G & _). simpl in G. rewrite Ht in G. discriminate.
+  - intros t E0. destruct (load_dict E d default_args) as [o tr] eqn:EL. simpl in E0. subst o.
+    pose proof (caps_from_caller E d default_args t tr EL) as (C1 & C2 & C3 & C4). cbv zeta in *.
+    split; [|split].
+    + eapply Forall_impl; [|exact C4]. intros c (_ & _ & H). destruct (fst (fst c)); [|reflexivity].
+      simpl in H. rewrite Ht in H. discriminate H. discriminate.
+    + unfold tree_ext_flags, tree_nodes in *. rewrite flat_map_app. apply Forall_app. split.
+      * apply Forall_flat_map. apply Forall_forall. intros o Ho. rewrite all_flags_split. apply Forall_app. split.
+        -- rewrite Forall_forall in C1. apply Forall_forall. intros f Hf. apply C1. apply in_flat_map. eauto.
+        -- rewrite Forall_forall in C2. apply Forall_forall. intros f Hf. apply C2.
+           rewrite flat_map_app. apply in_or_app. left. apply in_flat_map. eauto.
+      * rewrite C3. constructor.
+    + intros phs. eapply Forall_False_nil; [eapply convert_trace_gated; exact EL|].
+      intros e [_ G]. simpl in G. rewrite Hx in G. discriminate.
+Qed.
+
+(* "fails with a Sigma security error when first needed" *)
+Theorem ext_use_denied E s sel rem :
+  env_on (e_ext E) = false -> existsb (handled sel) rem = true ->
+  run_node E (NExt s sel false) rem = (SigmaErr E_Security, []).
+Proof. intros Hx Hh. simpl. rewrite Hh. unfold ext_allowed. rewrite Hx. reflexivity. Qed.
+
+Theorem vars_use_denied E ap p :
+  env_on (e_tv E) = false -> tpl_init E false ap (Some p) = (SigmaErr E_Security, []).
+Proof. intros Ht. unfold tpl_init. rewrite Ht. reflexivity. Qed.
